@@ -1,6 +1,6 @@
 CONSTANTS
   Depth = 3
-  Bases = {"str", "u64", "f64", "dur", "distu", "distdur", "mean", "rich", "err", "empty", "bad", "zero", "zeron"}
+  Bases = {"str", "u64", "f64", "dur", "distu", "distdur", "mean", "rich", "err", "empty", "bad", "zero", "zeron", "richi"}
   StackUnits = {"Second", "Microsecond", "Kilobit", "Count"}
 SPECIFICATION Spec
 INVARIANT Transparent
